@@ -37,6 +37,10 @@ def workspace(c):
         "use_single": f"use {pcrate}::m::Target;\n",
         "use_group": f"use {pcrate}::m::{{Target, Other}};\n",
         "use_nested_self": f"use {pcrate}::m::{{self, Target}};\n",
+        # a type FOLLOWED by leaves that are not types (a function, `self`, a nested path to a function) in the same group
+        "use_group_then_fn": f"use {pcrate}::m::{{Target, helper_fn}};\n",
+        "use_group_then_self": f"use {pcrate}::m::{{Target, self}};\n",
+        "use_group_then_nested_fn": f"use {pcrate}::{{m::Target, m::util::helper_fn, m::Other}};\n",
         "use_deep_group": f"use {pcrate}::{{m::{{Target, Other}}, m}};\n",
         "use_glob": f"use {pcrate}::m::*;\n",
         "use_alias": f"use {pcrate}::m::Target as Renamed;\nuse {pcrate}::m::Target;\n",
